@@ -20,4 +20,18 @@ TEXTS = {
     },
 }
 
+_TBL = "Lean 4 refinement proof (array model vs plain-table specification) + differential correspondence with the Rust code"
+
+def _t(text):
+    return {"text": text, "note": STD, "technique": _TBL}
+
+TEXTS.update({
+    "C06": _t("Proof that the modelled MergeSkaArray::filter/write_fasta emit exactly the rows the documented predicate (presence threshold + site filter) selects, with masking, for all tables and flags; tied to the code by running generic_modes::align on random tables over all filters/flags/thresholds and comparing with both the model and the table specification. Theorems proved so far are listed in the evidence file."),
+    "C07": _t("Proof that to_dict/extend/new compute the column concatenation of the tables (gap padded) and refuse other k/strand; tied to the code by running generic_modes::merge on random table families (nested, 64/128-bit k) against model and specification. Theorems proved so far are listed in the evidence file."),
+    "C08": _t("Proof that delete_samples equals column removal plus removal of emptied rows and refuses unknown/all/no names; tied to the code by running generic_modes::delete on random tables and delete sets, comparing file contents after acceptance and after refusal. Theorems proved so far are listed in the evidence file."),
+    "C10": _t("Proof that every operation of the modelled state machine refines the corresponding plain-table operation and that no observer reads state other than names, k-mers and bases (stored counts are recomputed before use); tied to the code by random operation histories with save/reload at every step, observers compared with the table specification. Theorems proved so far are listed in the evidence file."),
+    "C13": _t("Proof that weed keeps exactly the rows whose key is (not) among the weed sequences' split k-mers, leaves cells and names untouched, partitions the file and is idempotent; tied to the code by random weed sets hitting table rows on either strand. Theorems proved so far are listed in the evidence file."),
+    "C14": _t("Proof over exact arithmetic (weights scaled by 6) that the modelled distance pipeline reports SNP counts over shared k-mers and |exactly one|/|at least one| for each unordered pair once, under any frequency threshold; tied to the code by random tables through generic_modes::distance and MergeSkaArray::distance. f64 printing is compared with tolerance. Theorems proved so far are listed in the evidence file."),
+})
+
 NOT_YET = {}
